@@ -504,19 +504,28 @@ def Replica.canon (r : Replica) : Replica :=
 def pairs (n : Nat) : List (Nat × Nat) :=
   (List.range n).flatMap fun a => ((List.range n).filter (· ≠ a)).map fun b => (a, b)
 
-/-- one full round: every ordered pair `dst ← src` -/
-def World.round (d : Defects) (w : World) (room : Nat) : World × Nat :=
-  (pairs w.peers.length).foldl (fun (acc : World × Nat) (x : Nat × Nat) =>
-    let r := acc.1.pull d x.1 x.2 room
-    (r.1, acc.2 + r.2)) (w, 0)
+/-- one full round: every ordered pair `dst ← src`, for every room of `rooms` -/
+def World.round (d : Defects) (w : World) (rooms : List Nat) : World × Nat :=
+  (rooms.flatMap fun room => (pairs w.peers.length).map fun x => (x, room)).foldl
+    (fun (acc : World × Nat) (x : (Nat × Nat) × Nat) =>
+      let r := acc.1.pull d x.1.1 x.1.2 x.2
+      (r.1, acc.2 + r.2)) (w, 0)
+
+/-- `settle room=0` means both rooms -/
+def settleRooms (room : Nat) : List Nat := if room = 0 then [1, 2] else [room]
 
 /-- rounds until one changes nothing (at most `max`): (world, rounds, quiet, rows requested in the last round) -/
-def World.settle (d : Defects) (room : Nat) : Nat → World → Nat → Nat → World × Nat × Bool × Nat
+def World.settleLoop (d : Defects) (rooms : List Nat) : Nat → World → Nat → Nat → World × Nat × Bool × Nat
   | 0, w, n, f => (w, n, false, f)
   | fuel + 1, w, n, _ =>
-    let r := w.round d room
+    let r := w.round d rooms
     if r.1.peers.map Replica.canon = w.peers.map Replica.canon then (r.1, n + 1, true, r.2)
-    else World.settle d room fuel r.1 (n + 1) r.2
+    else World.settleLoop d rooms fuel r.1 (n + 1) r.2
+
+/-- every peer recomputes its log (as the API does after every write), then full rounds -/
+def World.settle (d : Defects) (room : Nat) (max : Nat) (w : World) : World × Nat × Bool × Nat :=
+  let w0 := (List.range w.peers.length).foldl (fun acc p => acc.recomputeAt d p) w.commit.1
+  World.settleLoop d (settleRooms room) max w0 0 0
 
 /-! ### op sequences (the op file of the harness, without its refusals) -/
 
@@ -542,7 +551,7 @@ def World.exec (d : Defects) (w : World) : Op → World
     match w.batch with
     | some b => if b.peer = p then w.commit.1 else w
     | none => w
-  | .settle room max => (World.settle d room max w.commit.1 0 0).1
+  | .settle room max => (World.settle d room max w).1
 
 def World.run (d : Defects) (w : World) (ops : List Op) : World := ops.foldl (World.exec d) w
 
